@@ -4,7 +4,7 @@
 (* clause is printed as <<"VERDICT", row id, clause>>.                      *)
 EXTENDS TagExpr, TLC, Json, IOUtils
 Rows == ndJsonDeserialize(IOEnv.TRACE_FILE)
-Univ == << <<"a">>, <<"b">>, <<"a","b">>, <<"z","b">>, <<"c",".","d">>, <<"x","-","y","=","1">>, <<"n","o","t","-","r">> >>
+Univ == << <<"a">>, <<"b">>, <<"a","b">>, <<"z","b">>, <<"c",".","d">>, <<"x","-","y","=","1">>, <<"N","O","T","-","r">> >>
 SS == SubsetSeq(Univ)
 
 VARIABLE i
